@@ -18,7 +18,8 @@ RULE = ('models from (a) loading dirty SQL populations (null, dangling, duplicat
         'ends are reachable only this way), (b) API histories of C02 that leave unconditional ends under-populated, '
         'each checked with check_association_integrity (all / every rel id as int and as Rn / unknown id), '
         'check_uniqueness_constraint (all / every class under a drawn spelling), check_subtype_integrity and '
-        'is_consistent against counts computed on the plain relational shadow; the same populations written to '
+        'is_consistent against counts computed on the plain relational shadow, and judged again after API edits of a loaded '
+        'model and after up to two further identifiers were declared on classes that already have instances; the same populations written to '
         'files and passed to xtuml.consistency_check.main with drawn -r/-k combinations (in-process) and to '
         '`python -m xtuml.consistency_check` / `python -m bridgepoint.consistency_check [-g]` as sub-processes for the '
         'exit status; for the BridgePoint tool the rows are ooaofooa instances and the expected counts come from the '
@@ -98,6 +99,7 @@ def cases(draw):
         h = draw(c02_links.history_cases())
         h['source'] = 'history'
         h['restr'] = draw(restrictions())
+        h['late_ids'] = draw(late_ids())
         return h
     schema_js = draw(gen_schema.schemas(max_classes=3, max_assocs=3, max_extra_attrs=1,
                                         typecase=draw(st.integers(0, 4)) == 0))
@@ -106,7 +108,13 @@ def cases(draw):
     # API edits of the loaded model (unrelate the k-th link / delete the k-th instance), counted again afterwards
     edits = draw(st.lists(st.tuples(st.sampled_from(['unrelate', 'unrelate', 'delete']), st.integers(0, 11)), max_size=3))
     return {'source': 'load', 'schema': schema_js, 'rows': rows, 'restr': draw(restrictions()),
-            'named': draw(st.booleans()), 'cli': draw(st.integers(0, 3)) == 0, 'edits': [list(e) for e in edits]}
+            'named': draw(st.booleans()), 'cli': draw(st.integers(0, 3)) == 0, 'edits': [list(e) for e in edits],
+            'late_ids': draw(late_ids())}
+
+
+def late_ids():
+    return st.lists(st.tuples(st.integers(0, 9), st.lists(st.integers(0, 9), min_size=1, max_size=2)), max_size=2).map(
+        lambda l: [[ci, list(ais)] for ci, ais in l])
 
 
 def _no_empty_ident(schema_js, cn, row):
@@ -256,6 +264,42 @@ def run_case(case, res=None):
                 fail('is-consistent-wrong-after-edit', 'after %r: is_consistent() = %r with %d + %d violations' % (edited, g_cons, e_all, e_uni))
             if (e_all, e_uni) != (exp_all, exp_uni):
                 removed = True
+    # the schema is tightened after the model was judged: a further identifier over 1-2 attributes of a class that
+    # has instances (no instance, link or value is touched); every count and the verdict follow
+    sc_now = sh.schema
+    sc_now.uniques = list(sc_now.uniques)          # the case itself stays as drawn
+    for ci, ais in case.get('late_ids', []):
+        c = sc_now.classes[ci % len(sc_now.classes)]
+        names = []
+        for ai in ais:
+            n, t = c['attrs'][ai % len(c['attrs'])]
+            if n not in names and n not in ('self', 'kind') and not (t.upper() == 'STRING' and any(sh.attr(r_, n) == '' for r_ in sh.live(c['name']))):
+                names.append(n)
+        if not names or not sh.live(c['name']):
+            continue
+        uname = 'I%d' % (7 + len(sc_now.uniques))
+        try:
+            m.define_unique_identifier(c['name'], uname, *names)
+        except Exception as e:
+            fail('define-identifier-exception:' + exc_bucket(e), repr(e))
+        sc_now.uniques.append({'cls': c['name'], 'name': uname, 'attrs': list(names)})
+        classes.append('identifier-added-later')
+        l_all = sh.count_association_violations()
+        l_uni = expected_uniqueness(sh)
+        try:
+            g_uni = xtuml.check_uniqueness_constraint(m)
+            g_kind = xtuml.check_uniqueness_constraint(m, c['name'])
+            g_cons = m.is_consistent()
+        except Exception as e:
+            fail('check-exception-after-late-identifier:' + exc_bucket(e), repr(e))
+        if g_uni != l_uni or g_kind != expected_uniqueness(sh, c['name']):
+            fail('uniqueness-count-wrong-after-late-identifier', 'identifier %s over %r of %s: check_uniqueness_constraint = %d (class: %d), present %d'
+                 % (uname, names, c['name'], g_uni, g_kind, l_uni))
+        if g_cons != (l_all == 0 and l_uni == 0):
+            fail('is-consistent-wrong-after-late-identifier', 'identifier %s over %r of %s: is_consistent() = %r with %d + %d violations'
+                 % (uname, names, c['name'], g_cons, l_all, l_uni))
+        if l_uni != exp_uni:
+            removed = True
     if exp_all and exp_uni:
         classes.append('both-kinds')
     if sub_checked:
